@@ -331,6 +331,117 @@ class F2cStream(common.Stream):
 SF2C = F2cStream("f2_compound", impl_f2c, line_f2c, judge_f2c, chunk=8)
 
 
+# ------------------------------------------------------------- the instance-bundle pass against its model (InstBundle.lean)
+
+IB_PORTS = ["p", "n", "g"]
+
+
+def gen_ib(rng):
+    ms = rng.sample(["x", "y", "z"], rng.randint(1, 3))
+    nports = rng.randint(1, 3)
+    conns = []
+    for p in IB_PORTS[:nports]:
+        r = rng.random()
+        if r < 0.3:
+            conns.append([p, {"k": "bundle", "ty": rng.choice(["B", "B", "B", "Other"]), "n": rng.choice(["b1", "b2"])}])
+        elif r < 0.6:
+            names = list(ms)
+            if rng.random() < 0.15:
+                names.append("extra")
+            if rng.random() < 0.12 and len(names) > 1:
+                names.pop(rng.randrange(len(names)))
+            rng.shuffle(names)
+            conns.append([p, {"k": "anon", "fields": [[nm, {"k": "sig", "n": f"a_{p}_{nm}", "w": 1}] for nm in names]}])
+        elif r < 0.85:
+            conns.append([p, {"k": "scalar", "c": {"k": "sig", "n": rng.choice(["s1", "s2"]), "w": 1}}])
+        else:
+            conns.append([p, {"k": "noconn"}])
+    return {"members": ms, "nports": nports, "conns": conns, "nested": rng.random() < 0.05}
+
+
+def impl_ib(case):
+    ms = case["members"]
+    B = h.Bundle(name="B")
+    for nm in ms:
+        B.add(h.Signal(name=nm))
+    if case["nested"]:
+        sub = h.Bundle(name="Sub")
+        sub.add(h.Signal(name="q"))
+        B.add(sub(), name="sub")
+    O = h.Bundle(name="Other")
+    for nm in ms:
+        O.add(h.Signal(name=nm))
+    E = h.ExternalModule(name="Eib", port_list=[h.Port(name=p) for p in IB_PORTS[: case["nports"]]], paramtype=h.HasNoParams)
+    m = h.Module(name="IbTop")
+    m.add(B(), name="b1")
+    m.add(O(), name="b2" + "o")
+    m.add(B(), name="b2")
+    m.add(h.Signal(name="s1")); m.add(h.Signal(name="s2"))
+    IBT = h.InstanceBundleType(name="IBT", bundle=B)
+    kw = {}
+    for p, c in case["conns"]:
+        if c["k"] == "bundle":
+            kw[p] = m.get(c["n"]) if c["ty"] == "B" else m.get("b2o")
+        elif c["k"] == "anon":
+            kw[p] = h.AnonymousBundle(**{nm: m.add(h.Signal(name=sc["n"])) if m.get(sc["n"]) is None else m.get(sc["n"]) for nm, sc in c["fields"]})
+        elif c["k"] == "scalar":
+            kw[p] = m.get(c["c"]["n"])
+        else:
+            kw[p] = h.NoConn()
+    m.add(IBT(E())(**kw), name="ib")
+    try:
+        h.elaborate(m)
+    except Exception as ex:  # noqa
+        return {"raise": common.errstr(ex)[-200:]}
+    out = {}
+    for nm in ms:
+        inst = m.instances.get(f"ib_{nm}")
+        out[nm] = None if inst is None else [[p, getattr(c, "name", type(c).__name__)] for p, c in inst.conns.items()]
+    return {"ok": out, "instances": sorted(m.instances), "signals": sorted(m.signals)}
+
+
+def line_ib(case):
+    return {"prop": "IB", "op": "expand", "ty": "B", "nested": case["nested"], "members": case["members"], "conns": case["conns"]}
+
+
+def judge_ib(case, im, mo):
+    if "error" in mo:
+        if "ok" in im:
+            yield ("pred", f"an instance bundle the pass must refuse ({mo['error']}) was elaborated: {im['ok']}")
+        return
+    if "raise" in im:
+        yield ("corr", f"a well-formed instance bundle was refused: {im['raise']}")
+        return
+    if im["instances"] != sorted(f"ib_{nm}" for nm in case["members"]):
+        yield ("pred", f"instances {im['instances']} for members {case['members']}")
+        return
+    private = []
+    for nm, es in mo["ok"]:
+        got = dict(map(tuple, im["ok"][nm]))
+        if list(got) != [p for p, _ in es]:
+            yield ("pred", f"member {nm}: ports {list(got)} vs {[p for p, _ in es]}")
+            return
+        for p, e in es:
+            if e == "noconn":
+                private.append(got[p])
+                want = None
+            elif "member" in e:
+                want = f"{e['member'][0]}_{e['member'][1]}"
+            else:
+                want = e["conn"]["n"]
+            if want is not None and got[p] != want:
+                yield ("pred", f"member {nm} port {p}: on {got[p]}, the model says {want}")
+                return
+    used = [v for es in im["ok"].values() for _, v in es]
+    for s in private:
+        if used.count(s) != 1:
+            yield ("pred", f"the no-connected port's net {s} is shared: {im['ok']}")
+            return
+
+
+SIB = common.Stream("instbundle", impl_ib, line_ib, judge_ib, chunk=16)
+
+
 def judge_f2(case, im, mo):
     res = mo["res"]
     ports = [tuple(x) for x in case["ports"]]
@@ -413,6 +524,8 @@ def run(ctx):
     rep.extra["f2_stats"] = f2stats
     # F2, continued: references inside slices and concatenations (`SConn.rename`, theorem references_inside_compounds)
     SF2C.run(ctx, [gen_f2c(ctx.rng) for _ in range(200 if ctx.quick else 4000)])
+    # the instance-bundle pass against InstBundle.lean (theorem instbundle_expansion)
+    SIB.run(ctx, [gen_ib(ctx.rng) for _ in range(300 if ctx.quick else 6000)])
     rep.extra["design_stats"] = stats
     rep.sample({"design": cases[2]["design"], "style": cases[2]["style"]})
 
